@@ -475,7 +475,7 @@ pub fn store_case(code: &str, v: &Vocab, r: &mut Rng, name: String, o: &StoreGen
     let mut mk_title = |r: &mut Rng, titles: &Vec<String>| -> String {
         if o.small_alphabet {
             let n = r.range(0, 3);
-            (0..n).map(|_| { let k = r.range(1, 4); (0..k).map(|_| *r.pick(&['a', 'b', 'c'])).collect::<String>() }).collect::<Vec<_>>().join(" ")
+            (0..n).map(|_| { let k = r.range(1, 4); (0..k).map(|_| *r.pick(&['a', 'b', 'c', '\u{10330}'])).collect::<String>() }).collect::<Vec<_>>().join(" ")
         } else if o.ties && !titles.is_empty() && r.chance(1, 3) { r.pick(titles).clone() } else { v.title(r) }
     };
     // rating scheme of the case: cache-stress cases also load records sorted by rating (bulk loading), both ways
@@ -521,7 +521,7 @@ pub fn store_case(code: &str, v: &Vocab, r: &mut Rng, name: String, o: &StoreGen
             4 | 5 => ops.push(Op::Search(r.pick(&["", " ", "-", "\u{a0}", "!?"]).to_string())),
             6 => { let q = if titles.is_empty() { v.title(r) } else { let t = r.pick(&titles).clone(); query_for(v, r, &t) }; ops.push(Op::Prepare(q, r.pick(&[0usize, 1, 2, 3, 10]).clone())); }
             _ => {
-                let q = if o.small_alphabet { let k = r.range(1, 3); (0..k).map(|_| *r.pick(&['a', 'b', 'c', ' '])).collect() }
+                let q = if o.small_alphabet { let k = r.range(1, 3); (0..k).map(|_| *r.pick(&['a', 'b', 'c', ' ', '\u{10330}'])).collect() }
                         else if titles.is_empty() { v.title(r) } else { let t = r.pick(&titles).clone(); query_for(v, r, &t) };
                 ops.push(Op::Search(q));
             }
